@@ -8,7 +8,9 @@
 package c08
 
 import (
+	"encoding/hex"
 	"fmt"
+	"os"
 	"runtime"
 	"runtime/debug"
 	"runtime/metrics"
@@ -61,9 +63,10 @@ func genRead(typ corpus.Type, b []byte) (o outcome) {
 var opUnmarshal = "generated Unmarshal"
 
 type variant struct {
-	b    []byte
-	desc string
-	kind string
+	b     []byte
+	desc  string
+	kind  string
+	build func() []byte // if set, b is built when the variant's turn comes
 }
 
 // refUnmarshal runs the reference reader; a panic inside protobuf-go's dynamic reader (seen on damaged map
@@ -110,17 +113,17 @@ func runC08(t *rapid.T, w *rep.Worker) {
 	var vars []variant
 	exhaustive := len(orig) > 0 && len(orig) <= 160 && rapid.IntRange(0, 2).Draw(t, "exhaustive") != 0
 	if exhaustive {
-		vars = append(vars, variant{orig, "valid", "valid"})
+		vars = append(vars, variant{orig, "valid", "valid", nil})
 		for k := 0; k < len(orig); k++ {
-			vars = append(vars, variant{wirex.Truncate(orig, k), fmt.Sprintf("truncate@%d", k), wirex.FTruncate})
+			vars = append(vars, variant{wirex.Truncate(orig, k), fmt.Sprintf("truncate@%d", k), wirex.FTruncate, nil})
 		}
 		for i := 0; i < len(orig); i++ {
 			for bit := uint(0); bit < 8; bit++ {
-				vars = append(vars, variant{wirex.FlipBit(orig, i, bit), fmt.Sprintf("bitflip@%d.%d", i, bit), wirex.FBitFlip})
+				vars = append(vars, variant{wirex.FlipBit(orig, i, bit), fmt.Sprintf("bitflip@%d.%d", i, bit), wirex.FBitFlip, nil})
 			}
 		}
 	} else {
-		vars = append(vars, variant{orig, "valid", "valid"})
+		vars = append(vars, variant{orig, "valid", "valid", nil})
 		b := orig
 		desc := ""
 		kind := "valid"
@@ -200,7 +203,7 @@ func runC08(t *rapid.T, w *rep.Worker) {
 				desc += fmt.Sprintf(" drop[%d:%d]", it.Start, it.End)
 			}
 		}
-		vars = append(vars, variant{b, "faults:" + desc, kind})
+		vars = append(vars, variant{b, "faults:" + desc, kind, nil})
 	}
 	// declared-length sweep: every top-level length prefix of the message set to every value of a fixed list
 	if len(orig) > 0 && (exhaustive || rapid.Bool().Draw(t, "lensweep")) {
@@ -215,15 +218,25 @@ func runC08(t *rapid.T, w *rep.Worker) {
 				1<<32 - 1, 1 << 32, 1<<32 + it.U, 1<<63 - 1, 1<<64 - 1, 1<<64 - 2, 1<<64 - 1<<31,
 				// and multiples of the fixed element sizes just below 2^63, where "offset + length" wraps
 				1<<63 - 4, 1<<63 - 8, 1<<63 - 16} {
-				nb := append([]byte{}, orig[:it.Start+kn]...)
-				nb = wirex.AppendVarint(nb, nl)
-				nb = append(nb, orig[it.PayStart:]...)
-				vars = append(vars, variant{nb, fmt.Sprintf("len@%d:=%d", it.Start+kn, nl), wirex.FInflate})
+				// built when its turn comes: a long message has hundreds of prefixes, and nineteen copies of it per
+				// prefix held at once would be the harness's own out-of-memory
+				it, kn, nl := it, kn, nl
+				vars = append(vars, variant{nil, fmt.Sprintf("len@%d:=%d", it.Start+kn, nl), wirex.FInflate, func() []byte {
+					nb := append([]byte{}, orig[:it.Start+kn]...)
+					nb = wirex.AppendVarint(nb, nl)
+					return append(nb, orig[it.PayStart:]...)
+				}})
 			}
 		}
 	}
 	judgedBoth := 0
 	for _, v := range vars {
+		if v.build != nil {
+			v.b = v.build()
+		}
+		if w.Tracing() {
+			w.Trace("about to decode %s (%s, %d bytes): %x", typ, v.desc, len(v.b), clipHex(v.b))
+		}
 		w.WatchBegin(&opUnmarshal)
 		g := genRead(typ, v.b)
 		w.WatchEnd()
@@ -304,6 +317,35 @@ func runC08(t *rapid.T, w *rep.Worker) {
 	if sig := w.Pending(); sig != "" {
 		t.Fatalf("%s", sig)
 	}
+}
+
+func clipHex(b []byte) []byte {
+	if len(b) > 4096 {
+		return b[:4096]
+	}
+	return b
+}
+
+// TestC08One decodes one input of one type in a process of its own (driver: isolated confirmation after a worker
+// ran out of memory - was it this decode, or the harness?). VERIF_C08_ONE = "<type> <hex>".
+func TestC08One(t *testing.T) {
+	spec := os.Getenv("VERIF_C08_ONE")
+	if spec == "" {
+		t.Skip("driver helper")
+	}
+	name, hx, _ := strings.Cut(spec, " ")
+	b, err := hex.DecodeString(hx)
+	if err != nil {
+		t.Fatalf("HARNESS: %v", err)
+	}
+	for _, typ := range corpus.All {
+		if typ.String() == name {
+			g := genRead(typ, b)
+			fmt.Printf("ONE alloc=%d limit=%d panicked=%v\n", g.alloc, 4096*len(b)+1<<20, g.pan != nil)
+			return
+		}
+	}
+	t.Fatalf("HARNESS: no corpus type %q", name)
 }
 
 func TestC08Medium(t *testing.T) {
